@@ -1,22 +1,13 @@
 # -*- coding: utf-8 -*-
 """Type-directed generators of SSH objects, built with the library's own constructors.
 All randomness comes from the `rng` argument."""
-import os
 import string
 
-FRAMING = {'SshRecordInit', 'SshRecordKexDH', 'SshRecordKexDHGroup', 'SshProtocolMessage'}
+# stream framing units for the shared class-level checks (C03 self-delimitation, C04 prefix rejection / reader).
+# The identification string is NOT listed: its prefixes are InvalidValue by design (DESIGN §C04: "C04 does not
+# claim the banner") and it swallows every following line feed (C07 `banner_self_delimiting_full_fails`).
+FRAMING = {'SshRecordInit', 'SshRecordKexDH', 'SshRecordKexDHGroup'}
 
-
-def _driver_knows_ssh():
-    """the SSH classes are behind the line protocol only once `sshClasses` is part of `allClasses`
-    (CpModel/Drv/Class.lean of the Lean tree in use); until then the shared class-level properties
-    must not be handed SSH cases they cannot run through the model"""
-    from harness import core
-    try:
-        with open(os.path.join(core.LEAN, 'CpModel', 'Drv', 'Class.lean')) as f:
-            return 'sshClasses' in f.read()
-    except IOError:
-        return False
 
 NAME_CHARS = ''.join(c for c in string.printable[:94] if c != ',')   # printable, no blank, no comma
 
@@ -310,8 +301,8 @@ def sized_banner(rng, total, with_comment):
 def banner(rng):
     from cryptoparser.ssh.subprotocol import SshProtocolMessage
     if rng.random() < 0.2:
-        # 253, 254, 255 (the RFC 4253 maximum) and 256 bytes (composable, refused by the parser)
-        return sized_banner(rng, rng.choice([253, 254, 255, 256]), rng.random() < 0.5)
+        # 253, 254 and 255 bytes, the RFC 4253 maximum (256 is refused by compose(): see c07's probe)
+        return sized_banner(rng, rng.choice([253, 254, 255]), rng.random() < 0.5)
     r = rng.random()
     if r < 0.5:
         comment = None
@@ -445,5 +436,5 @@ ALL_GENERATORS += [
     ('SshCertValidPrincipals', principals),
 ]
 
-MODELLED_GENERATORS = list(ALL_GENERATORS) if _driver_knows_ssh() else []
-FRAMING_MODELLED = set(FRAMING) if MODELLED_GENERATORS else set()
+MODELLED_GENERATORS = list(ALL_GENERATORS)
+FRAMING_MODELLED = set(FRAMING)
